@@ -724,6 +724,17 @@ if ("match self { Self::Info(info) => info.$name($($param),*), Self::Map(map) =>
                       r"pub fn is_executable\(&self\) -> bool; \} \}", um)):
     die("UnifiedMemoryInfo no longer forwards is_readable / is_writable / is_executable to the inner record")
 
+# ------------------------------------------------------------------ from_windows_exception: the EXCEPTION_ACCESS_VIOLATION refinement
+fwx = norm(fn_body(mdrs, r"pub fn from_windows_exception\(", "from_windows_exception"))
+m = re.search(r"CrashReason::WindowsGeneral\(ExceptionCodeWindows::EXCEPTION_ACCESS_VIOLATION\) => \{ if record\.number_parameters (>=|>|==) (\d+) \{ "
+              r"if let Some\(ty\) = err::ExceptionCodeWindowsAccessType::from_u64\(info\[(\d+)\]\) \{ reason = CrashReason::WindowsAccessViolation\(ty\); \} \} \}", fwx)
+if not m:
+    die("from_windows_exception: the EXCEPTION_ACCESS_VIOLATION refinement (number_parameters guard; access type from exception_information[..]) "
+        "is not recognised:\n" + fwx[:1500])
+if int(m.group(3)) != 0:
+    die("from_windows_exception: the access type is no longer read from exception_information[0] (coq/C19/Source.v greason_of takes info0)")
+win_av_guard = "(nparams %s %s)" % ({">=": ">=?", ">": ">?", "==": "=?"}[m.group(1)], m.group(2))
+
 # ------------------------------------------------------------------ emit
 L = []
 L.append("(* GENERATED by translate/c19_src.py from minidump-processor/src/{processor,process_state}.rs and minidump/src/minidump.rs — do not edit *)")
@@ -824,6 +835,8 @@ L.append("   UnifiedMemoryInfo forwards the three predicates to the inner record
 L.append("Definition G_MAPS_R_BIT : Z := %d." % maps_bits["readable"])
 L.append("Definition G_MAPS_W_BIT : Z := %d." % maps_bits["writable"])
 L.append("Definition G_MAPS_X_BIT : Z := %d." % maps_bits["executable"])
+L.append("(* CrashReason::from_windows_exception: EXCEPTION_ACCESS_VIOLATION becomes WindowsAccessViolation(type of exception_information[0]) under this guard *)")
+L.append("Definition g_win_av_guard (nparams : Z) : bool := %s." % win_av_guard)
 out = "\n".join(L) + "\n"
 os.makedirs(outdir, exist_ok=True)
 pth = os.path.join(outdir, "C19Src.v")
